@@ -5,10 +5,22 @@ CHECKS = {
    technique='SMT (z3) regular-language equivalence and table queries over the real generated automata',
    text='Decision by z3 for all sentences (unbounded length) of every rule of every shipped grammar file: L(generated DFA) = L(right-hand side read independently from the text); one propositional query per grammar over all (state, token) pairs for domain/next state/push chain = "terminal arcs + FIRST of nonterminal arcs" with FIRST the solver\'s solution of the begins-with equations; LL(1)-ness decided by the solver must coincide with generate_grammar accepting/raising, also on a seeded family of synthetic grammars (bounded: family is sampled, 1-3 rules, <=6 operators). Bounded model checking level: unbounded in sentences, bounded in the set of grammars.',
    note='Trusted: the 90-line EBNF reader vp/ebnf.py, state elimination in vp/zgrammar.py, z3 5.1 regex/Bool solver. Four in-memory corruptions of the tables (broken twins) must be refuted on every run. Counterexamples are replayed without the solver by vp/replay_grammar.py.'),
+ 'C09': dict(engine='z-regex + x-crosshair', ref='DESIGN.md 3.1, 3.3, 4/C09',
+   technique='SMT-backed symbolic execution (CrossHair/z3) of the real tokenizer + z3 regular-language lemmas over its live patterns',
+   text='Bounded model checking. (Z) z3 decides, for strings of unbounded length, lemmas over the sre parse trees of parso\'s compiled patterns: every prefix the tokenizer can assemble is tiled by the prefix lexer (minus the recorded known finding), progress, match-or-character availability, no line break inside NAME/NUMBER/OP, number dispatch. (X) CrossHair executes tokenize(), split_prefix(), _split_illegal_unicode_name(), _close_fstring_if_necessary() on symbolic inputs and decides G_tok (lossless, true positions, balanced INDENT/DEDENT, pure prefixes, lexical classes) over all paths: every 1-char text and every 2-char text with a listed first character over ALL of Unicode, 1-char full-Unicode holes in 24 skeletons (f-strings, continuations, BOM, brackets, indentation), prefixes of length <=2/3. Texts outside these families are not claimed.',
+   note='Trusted: vp/rx.py translator (validated against re each run), vp/oracle.py reference walk/purity predicate (validated on the repository test corpus by tools/validate_oracles.py), CrossHair 0.0.110 with vp/chplugin.py. Reachability twin per condition; two broken twins per run must be refuted. Counterexamples replay on plain /venv python.'),
+ 'C16': dict(engine='x-crosshair', ref='DESIGN.md 4/C16',
+   technique='SMT-backed symbolic execution (CrossHair/z3) of the real cache code against a stubbed environment; inductive step + bounded histories',
+   text='Bounded model checking with an inductive step: from an ARBITRARY cache state satisfying the representation invariant (symbolic time stamps in ms, presence/staleness flags) one arbitrary operation must serve the current tree and re-establish the invariant, decided over all paths; plus all 3-step (thorough: 4-step) histories over 8 operations and all 4-step histories over two keys differing in file/grammar/cache dir; plus in-flight writes (known finding).',
+   note='Assumes the environment model in vp/harness/cachew.py (in-memory fs/clock/pickle, stub parser and diff parser), writes strictly advance mtime, one clock. Real code under test: Grammar.parse cache branches and all of parso/cache.py load/save/evict/clean-up.'),
+ 'C17': dict(engine='x-crosshair', ref='DESIGN.md 4/C17', category='model_checking',
+   technique='SMT-backed symbolic execution (CrossHair/z3) with fault-injection stubs: symbolic fault point, error kind and time stamps',
+   text='Bounded model checking over a fault model: one torn/garbage/wrong-type pickle (10 exception kinds) with arbitrary fresh-looking time stamps; one failing file operation among 9 primitives x realistic OSError kinds incl. a crash inside pickle.dump; vanished cache directory; maintenance with arbitrary atime/mtime/lock times. Decided over all paths: parse succeeds with the current tree, a later save repairs, active entries survive clean-up.',
+   note='Same environment model as C16 plus fault stubs; torn files are modelled by the exception unpickling raises, not by real byte streams; two processes are modelled as faults at call boundaries.'),
 }
 NA = {
  'C12': 'oracle is CPython\'s compiler (C code) for eight versions; CrossHair realises at that boundary and no machine-readable reference grammar/semantic-check specification exists offline to encode (DESIGN.md section 8)',
  'C14': 'reference semantics is CPython\'s ast module (C extension); same obstacle as C12 (DESIGN.md section 8)',
 }
-for _p in ['C01','C02','C03','C04','C05','C06','C07','C09','C10','C11','C13','C15','C16','C17','C18','C19','C20']:
+for _p in ['C01','C02','C03','C04','C05','C06','C07','C10','C11','C13','C15','C18','C19','C20']:
     NA.setdefault(_p, TODO)
